@@ -137,7 +137,11 @@ fn gen_op(rng: &mut Rng, pool: &[Handle], labels: &[usize], step: usize) -> Op {
         0..=5 => Op::Var(*rng.pick(labels)),
         6 => Op::Const(rng.chance(1, 2)),
         7..=13 => Op::Not(pick(rng)),
-        14..=44 => Op::Bin(BIN[rng.usize(BIN.len())], pick(rng), pick(rng)),
+        14..=44 => {
+            // xor / eq keep functions complex; the absorbing connectives drift towards constants
+            let k = if rng.chance(1, 2) { if rng.chance(1, 2) { "xor" } else { "eq" } } else { BIN[rng.usize(BIN.len())] };
+            Op::Bin(k, pick(rng), pick(rng))
+        }
         45..=52 => Op::Ite(pick(rng), pick(rng), pick(rng)),
         53..=58 => Op::Exists((0..rng.usize(4)).map(|_| *rng.pick(labels)).collect(), pick(rng)),
         59..=63 => Op::All((0..rng.usize(4)).map(|_| *rng.pick(labels)).collect(), pick(rng)),
@@ -406,7 +410,7 @@ fn shared_env_job(ctx: &Ctx, job: usize, rounds: u64) -> Stats {
 }
 
 pub fn run(ctx: &Ctx) -> (Stats, Spec) {
-    let (hist, maxlen, rounds) = ctx.tier.pick((60u64, 400usize, 400u64), (1500u64, 3000usize, 20000u64));
+    let (hist, maxlen, rounds) = ctx.tier.pick((300u64, 600usize, 2500u64), (1500u64, 3000usize, 20000u64));
     let st = with_stderr_gagged(|| {
         let parts = util::par_jobs(16, |job| {
             let mut s = usize_job(ctx, job, hist, maxlen);
@@ -420,7 +424,7 @@ pub fn run(ctx: &Ctx) -> (Stats, Spec) {
         miri_tripwire(ctx, &mut st, 150);
     }
     let spec = Spec {
-        rule: "random histories of 100..400 [quick] / 100..3000 [thorough] public operations (var, const, 7 binary connectives, ite, exists/all/exists_impl, aln/amn/exn, count_*, fp with a closure calling back into the environment, model, infer, retain, clean, order-respecting mk_choice) on one BDDEnv<usize> over 5-6 sparse labels, operands drawn from all earlier handles (old ones preferred); second family: 2-13 formula evaluations (incl. re-evaluations) sharing one BDDEnv<NamedSymbol> under a common random ordering. distinct = hash of the operation list; non-trivial = >= 30% of operands are handles older than 20 steps and the table reached >= 50 nodes (shared-env: >= 4 evaluations, >= 20 nodes).".into(),
+        rule: "random histories of 100..600 [quick] / 100..3000 [thorough] public operations (var, const, 7 binary connectives, ite, exists/all/exists_impl, aln/amn/exn, count_*, fp with a closure calling back into the environment, model, infer, retain, clean, order-respecting mk_choice) on one BDDEnv<usize> over 5-6 sparse labels, operands drawn from all earlier handles (old ones preferred); second family: 2-13 formula evaluations (incl. re-evaluations) sharing one BDDEnv<NamedSymbol> under a common random ordering. distinct = hash of the operation list; non-trivial = >= 30% of operands are handles older than 20 steps and the table reached >= 50 nodes (shared-env: >= 4 evaluations, >= 20 nodes).".into(),
         assumptions: vec![
             "operands from other environments are never mixed in; formulas sharing an environment share one variable numbering".into(),
             "the unique table is inspected through the public `nodes` field at quiescent points; duplicates() is not used as an oracle".into(),
